@@ -291,6 +291,22 @@ def check(case):
         res.fail("C19.set_last_datetime", "set_init_datetime=False changed init_datetime", sig="noset")
     if r + (p.time - 1) * unit != last:
         res.fail("C19.set_last_datetime", "returned init %s + (time-1)*unit != %s" % (r, last), sig="value")
+    # ... on a project that was really simulated and edited: "the last simulated step" is the last entry of the logs
+    if times:
+        spec3 = {
+            "tasks": [{"work": 3.0, "prog": 0.0, "auto": False, "nf": False, "comp": None, "wpr": 0, "wr": -1, "fr": 0, "fixw": None, "fixf": None, "due": -1, "rate": 1.0}],
+            "deps": [], "order": [0], "comps": [], "teams": [{"targets": [0]}],
+            "workers": [{"team": 0, "cost": 1.0, "solo": False, "skills": {"0": 1.0}, "fsk": {}, "abs": [], "mw": None}], "wps": [], "facs": [],
+        }
+        h3 = S.build(spec3)
+        S.simulate(h3.project, {"rule": 0, "abs": sorted(set(times)), "auto_abs": False, "max_time": 100})
+        if case.get("mix"):
+            h3.project.remove_absence_time_list()
+        h3.project.init_datetime, h3.project.unit_timedelta = init, unit
+        r3 = h3.project.set_last_datetime(last)
+        n3 = len(h3.project.cost_list)
+        if n3 and r3 + (n3 - 1) * unit != last:
+            res.fail("C19.set_last_datetime", "simulated project of %d steps (absence steps %s%s): start %s puts the last step on %s, not on %s" % (n3, sorted(set(times)), ", removed" if case.get("mix") else "", r3, r3 + (n3 - 1) * unit, last), sig="simulated")
     # the query form with a unit of its own: the returned start date is for THAT unit
     unit3 = datetime.timedelta(seconds=case["unit_s"] * 3 + 7)
     r = p.set_last_datetime(last, unit_timedelta=unit3, set_init_datetime=False)
